@@ -232,8 +232,7 @@ Proof.
     + apply inv_clean_num. exact I.
     + destruct (has_name s j); [|exact I]. apply inv_tidy. eapply inv_ext; [| |exact I]; reflexivity.
     + destruct (runN s) as [t|] eqn:R; [|exact I].
-      destruct (has_num s t); [apply inv_clean_num; exact I|].
-      apply inv_tidy. apply inv_no_runN. reflexivity.
+      destruct (has_num s t); [apply inv_clean_num; exact I|exact I].
     + apply inv_empty.
   - apply inv_no_runN. reflexivity.
   - intros t R Ht j Hj. cbn in *. unfold nums in *. cbn in *.
@@ -273,8 +272,7 @@ Proof.
     + apply linked_clean_num. exact L.
     + destruct (has_name s j); [|exact L]. apply linked_tidy. eapply linked_ext; [| |exact L]; reflexivity.
     + destruct (runN s) as [t|] eqn:R; [|exact L].
-      destruct (has_num s t); [apply linked_clean_num; exact L|].
-      apply linked_tidy. apply linked_no_runN. reflexivity.
+      destruct (has_num s t); [apply linked_clean_num; exact L|exact L].
     + apply linked_empty.
 Qed.
 
@@ -443,8 +441,7 @@ Proof.
   - destruct t as [k|j| |]; cbn [clean removes_top] in *.
     + apply maxnum_clean_num. exact S.
     + destruct (has_name s j); [|reflexivity]. rewrite maxnum_tidy. reflexivity.
-    + destruct (runN s) as [t|] eqn:R; [|reflexivity]. rewrite S.
-      rewrite maxnum_tidy. reflexivity.
+    + destruct (runN s) as [t|] eqn:R; [|reflexivity]. rewrite S. reflexivity.
     + apply negb_false_iff, is_nil_nums in S. unfold maxnum. rewrite S. reflexivity.
   - reflexivity.
   - cbn [removes_top] in S. unfold maxnum at 1, nums at 1. cbn.
@@ -525,7 +522,7 @@ Proof.
     destruct t as [k|j| |]; cbn [clean].
     + apply CN.
     + destruct (has_name s j); [|exact N]. apply T. exact N.
-    + destruct (runN s) as [t|]; [|exact N]. destruct (has_num s t); [apply CN|]. apply T. exact N.
+    + destruct (runN s) as [t|]; [|exact N]. destruct (has_num s t); [apply CN|exact N].
     + constructor.
   - exact N.
   - unfold nums. cbn. rewrite nums_remove. apply NoDup_filter. exact N.
